@@ -174,12 +174,14 @@ CmpClauses ==
                     \* runs cut off by max_time are not comparable
                     [] Run.args.cmpWhat = "lg-success" ->
                          (ref.lg.status = "SUCCESS" /\ Run.final.lg.status = "SUCCESS" => SameLogs(Run.final, ref))
+                    [] Run.args.cmpWhat = "graph" ->
+                         Run.ret = "ok" /\ Run.obs = Case.runs[Run.args.cmp].obs
                     [] OTHER -> SameResult(Run.final, ref)>> >>)
 
 RunClauses ==
   CmpClauses
   \o (IF Run.op \in {"sort", "report"} THEN <<>> ELSE << <<"X.exact", Run.final.inexact = <<>> >> >>)
-  \o (IF Run.op \in {"sort", "report", "rebuild", "snapshot", "subconfig", "add_dep"} THEN <<>> ELSE On("C08", C08_H(Cfg, Run)))
+  \o (IF Run.op \in {"sort", "report", "rebuild", "snapshot", "subconfig", "add_dep", "graph"} THEN <<>> ELSE On("C08", C08_H(Cfg, Run)))
   \o (CASE Run.op = "sort" -> On("C11", C11_F(Cfg, Run)) \o << <<"L2.sort", C11_FConforms(Cfg, Run)>> >>
         [] Run.op = "report" -> On("C19", C19_F(Run))
         [] Run.op = "subconfig" -> On("C20", C20_Config(Run))
@@ -209,6 +211,8 @@ RunClauses ==
                  THEN << <<"L2.insert_absence", Run.ret = "ok" /\ Run.final.lg = InsertAbsenceF(Cfg, Pre.lg, Run.args.L)>> >>
                  ELSE << <<"X.logs-aligned", FALSE>> >>)
         [] Run.op = "saveload" -> On("C16", C16_H(Cfg, Run, Pre))
+        [] Run.op = "graph" ->
+             << <<"L2.graph", Run.ret = "ok" /\ GraphConforms(Cfg, Run.args.workers, Run.args.facilities, Run.obs)>> >>
         [] OTHER -> <<>>)
 
 \* the recorded state has the shape (numbers of tasks, resources, components) of the model the
